@@ -132,6 +132,9 @@ def escCppW (c : Nat) : Text :=
 
 def enc_cppw (s : Text) : Res Text := stripped ([76, 34] ++ s.flatMap escCppW ++ [34])
 
+/-- one byte as a fixed-width octal escape: `f"\\{byte:03o}"` -/
+def octEsc (b : Nat) : Text := 92 :: fmtOct3 b
+
 def escCppN (c : Nat) : Res Text :=
   if c = 7 then .ok [92, 97]
   else if c = 8 then .ok [92, 98]
@@ -144,15 +147,15 @@ def escCppN (c : Nat) : Res Text :=
   else if c = 92 then .ok [92, 92]
   else if c < 32 then .ok (92 :: fmtOct3 c)
   else if c ≤ 127 then .ok [c]
-  else .err "ValueError"
+  else if 0xD800 ≤ c ∧ c ≤ 0xDFFF then .err "ValueError"
+  else .ok ((utf8cp c).flatMap octEsc)
 
-/-- `@require(all(ord(character) <= 127 …))` first, then the loop. -/
+/-- The narrow `string_literal`: the loop only (the ASCII-only `@require` was removed by the repair of C02-F2;
+non-ASCII characters are written as the octal escapes of their UTF-8 bytes, a surrogate raises `ValueError`). -/
 def enc_cppn (s : Text) : Res Text :=
-  if s.all (fun c => decide (c ≤ 127)) then
-    match mapRes escCppN s with
-    | .err e => .err e
-    | .ok b => stripped ([34] ++ b ++ [34])
-  else .err "ViolationError"
+  match mapRes escCppN s with
+  | .err e => .err e
+  | .ok b => stripped ([34] ++ b ++ [34])
 
 /-- body of `wchar_literal` for one character -/
 def wcharOne (c : Nat) : Res Text :=
@@ -207,7 +210,9 @@ def pyEscChar (tbl : List (Nat × Text)) (c : Nat) : Text :=
   | some e => e
   | none =>
     if c = 0 then [92, 120, 48, 48]
-    else if 0xD800 ≤ c ∧ c ≤ 0xDFFF then 92 :: 117 :: fmtHex 4 c
+    -- surrogates, and (since the repair of the re-indentation defect) the characters which `str.splitlines` treats as
+    -- line boundaries and no table escapes: U+001C..U+001E, U+0085, U+2028, U+2029 -- the same `\\uXXXX` form
+    else if 0xD800 ≤ c ∧ c ≤ 0xDFFF ∨ c = 28 ∨ c = 29 ∨ c = 30 ∨ c = 133 ∨ c = 8232 ∨ c = 8233 then 92 :: 117 :: fmtHex 4 c
     else [c]
 
 /-- (uses single quotes?) as decided by `string_literal` -/
@@ -238,7 +243,7 @@ def needsCharPy (c : Nat) : Bool :=
   else if c = 13 then true else if c = 9 then true else if c = 11 then true else if c = 34 then true
   else if c = 92 then true
   else if c = 0 then true
-  else if 0xD800 ≤ c ∧ c ≤ 0xDFFF then true
+  else if 0xD800 ≤ c ∧ c ≤ 0xDFFF ∨ c = 28 ∨ c = 29 ∨ c = 30 ∨ c = 133 ∨ c = 8232 ∨ c = 8233 then true
   else false
 
 def needs_py (alsoCurly : Bool) (s : Text) : Bool :=
